@@ -310,6 +310,10 @@ Section RT.
     apply next_token_look.
   Qed.
 
+  Lemma peek_keyword_canon : forall line off kw c r ll,
+    peek_keyword il id F (canon line off kw c r ll) = POk kw (canon line off kw c r ll).
+  Proof. intros. unfold peek_keyword, bind, canon. rewrite peek_token_look. reflexivity. Qed.
+
   (** ------------------------------------------------------------ VERSION *)
 
   Lemma snoc_cons : forall (s : bytes) x, exists a q, s ++ [x] = a :: q.
@@ -1117,6 +1121,219 @@ Section RT.
     exists st'. split.
     - destruct be, sg; reflexivity.
     - match goal with |- Ready _ ?X _ _ => match type of HR with Ready _ ?Y _ _ => replace X with Y end end; [exact HR|].
+      assert (Hl2 : 1 + blen r2 = blen (comma_list rcvs) + 1 + blen fol) by (rewrite <- (blen_cons c2 r2), <- E2, blen_app, blen_cons; lia).
+      repeat (rewrite blen_app || rewrite blen_cons). lia.
+  Qed.
+
+  Lemma uint_value_nonneg : forall ds, Forall (fun a => is_decimal a = true) ds -> 0 <= uint_value ds.
+  Proof. intros ds H. unfold uint_value. apply (fold_uint_ge ds 0); [lia|exact H]. Qed.
+
+  Lemma print_signal_len : forall s fol,
+    (length (print_signal s) + length fol
+     = 7 + length (ss_name s) + length (print_mux (ss_mux s)) + length (signal_rest s fol))%nat.
+  Proof.
+    intros s fol. pose proof (f_equal (@length Z) (print_signal_eq s fol)) as H. rewrite signal_body_eq in H.
+    rewrite !app_length in H. cbn [length] in H. rewrite !app_length in H. cbn [length] in H.
+    unfold kw_signal in H. cbn [length] in H. lia.
+  Qed.
+
+  Lemma signal_rest_len : forall s fol, (length fol + 20 <= length (signal_rest s fol))%nat.
+  Proof. intros. unfold signal_rest. repeat (rewrite app_length || cbn [length]). lia. Qed.
+
+  Lemma print_signal_ge : forall s, (27 <= length (print_signal s))%nat.
+  Proof. intros s. pose proof (print_signal_len s []). pose proof (signal_rest_len s []). cbn [length] in *. lia. Qed.
+
+  Lemma step_signal : forall s fol line off ll, wf_signal s -> rest_ok fol ->
+    (length (print_signal s) + 4 <= F)%nat ->
+    exists st', parse_signal il id F (canon line off kw_signal 32 (signal_body s fol) ll)
+                = POk (elab_signal line off s) st'
+                /\ Ready (line + 1) (off + blen (print_signal s)) fol st'.
+  Proof.
+    intros s fol line off ll Hw Hok HF.
+    pose proof (print_signal_len s fol) as Hlen. pose proof (signal_rest_len s fol) as Hsr.
+    assert (Hblen : blen (print_signal s) + blen fol
+                    = 7 + blen (ss_name s) + blen (print_mux (ss_mux s)) + blen (signal_rest s fol)) by (unfold blen; lia).
+    pose proof Hw as (Hname & Hmux & _).
+    pose proof (blen_nonneg (ss_name s)) as Hnn. pose proof (blen_nonneg (print_mux (ss_mux s))) as Hnm.
+    assert (Hk0 : blen kw_signal = 3) by reflexivity.
+    rewrite parse_signal_unfold. unfold canon. unfold bind at 1. rewrite p_keyword_canon. rewrite stepS_plain by discriminate.
+    rewrite signal_body_eq. cbn [kwtok t_pos].
+    assert (HFc : (length (signal_rest s fol) - length fol + 8 <= F)%nat) by lia.
+    assert (HFn : (length (ss_name s) + 2 < F)%nat) by lia.
+    destruct (ss_mux s) as [| |ds] eqn:Em; cbn [print_mux app] in *.
+    - (* plain signal *)
+      unfold bind at 1. rewrite p_identifier_ws; try assumption; try reflexivity; try lia; [|unfold ascii; lia].
+      rewrite stepS_plain by discriminate.
+      destruct (peek_ws_punct 32 58 32 (signal_rest s fol) [32] (off + blen kw_signal + 1 + blen (ss_name s) + 1) line
+                  (blen kw_signal + 1 + blen (ss_name s) + 1) ll ws_default) as (tk & Ep & Ety);
+        try reflexivity; try lia; [left; reflexivity|exact punct_colon|unfold ascii; lia|].
+      unfold bind at 1. rewrite Ep. unfold bind at 1. unfold signal_mux. rewrite Ety. change (58 =? c_colon) with true. cbn [negb].
+      unfold ret at 1. cbv beta iota. unfold bind at 1. rewrite (p_token_look _ tk c_colon Ety).
+      rewrite stepS_plain by discriminate.
+      destruct (signal_cont_run s fol {| p_line := line; p_column := 1; p_offset := off |} (ss_name s) false false 0
+                  (off + blen kw_signal + 1 + blen (ss_name s) + 1 + 1 + 1) line (blen kw_signal + 1 + blen (ss_name s) + 1 + 1 + 1) ll
+                  Hw Hok HFc ltac:(lia)) as (st' & E & HR).
+      exists st'. split.
+      + rewrite E. unfold elab_signal. rewrite Em. reflexivity.
+      + change (blen []) with 0 in *.
+        match goal with |- Ready _ ?X _ _ => match type of HR with Ready _ ?Y _ _ => replace X with Y by lia end end. exact HR.
+    - (* multiplexer switch *)
+      unfold bind at 1. rewrite p_identifier_ws; try assumption; try reflexivity; try lia; [|unfold ascii; lia].
+      rewrite stepS_plain by discriminate.
+      unfold bind at 1. rewrite peek_token_scan.
+      change (77 :: 32 :: 58 :: 32 :: signal_rest s fol) with ((77 :: []) ++ 32 :: 58 :: 32 :: signal_rest s fol).
+      rewrite (scan_ws_ident 32 77 [] 32); try reflexivity; try lia; [|left; reflexivity|cbn [length]; lia|apply Forall_nil|unfold ascii; lia].
+      unfold bind at 1. unfold signal_mux. cbn [t_typ]. change (TIdent =? c_colon) with false. cbn [negb].
+      unfold bind at 1. rewrite next_token_look. cbn [t_typ t_txt]. change (TIdent =? TIdent) with true. cbn [negb].
+      change (bytes_eqb [77] [77]) with true. cbv iota. unfold ret at 1. cbv beta iota.
+      rewrite stepS_plain by discriminate. rewrite blen_nil, !Z.add_0_r.
+      unfold bind at 1. rewrite p_token_ws; try lia; [|exact punct_colon|unfold ascii; lia].
+      rewrite stepS_plain by discriminate.
+      match goal with |- context [signal_cont ?KP ?NM true false 0 (PS (mkS _ _ ?PP _ ?KK _ _ _) _)] =>
+        destruct (signal_cont_run s fol KP NM true false 0 PP line KK ll Hw Hok HFc ltac:(lia)) as (st' & E & HR) end.
+      exists st'. split.
+      + rewrite E. unfold elab_signal. rewrite Em. reflexivity.
+      + change (blen [32; 77]) with 2 in *.
+        match goal with |- Ready _ ?X _ _ => match type of HR with Ready _ ?Y _ _ => replace X with Y by lia end end. exact HR.
+    - (* multiplexed signal m<k> *)
+      cbn [wf_mux] in Hmux. destruct Hmux as (Hds & Hlt). pose proof Hds as (d0 & t & Eds & Hd0 & Hdt & Hz0).
+      assert (Hdec : Forall (fun a => is_decimal a = true) ds) by (subst ds; constructor; assumption).
+      pose proof (blen_nonneg ds) as Hnds.
+      assert (Hlds : (length ds + 8 <= F)%nat) by (cbn [length] in *; lia).
+      unfold bind at 1. rewrite p_identifier_ws; try assumption; try reflexivity; try lia; [|unfold ascii; lia].
+      rewrite stepS_plain by discriminate.
+      unfold bind at 1. rewrite peek_token_scan.
+      change (109 :: ds ++ 32 :: 58 :: 32 :: signal_rest s fol) with ((109 :: ds) ++ 32 :: 58 :: 32 :: signal_rest s fol).
+      rewrite (scan_ws_ident 32 109 ds 32); try reflexivity; try lia; [|left; reflexivity|apply decimal_idc; assumption|unfold ascii; lia].
+      unfold bind at 1. unfold signal_mux. cbn [t_typ]. change (TIdent =? c_colon) with false. cbn [negb].
+      unfold bind at 1. rewrite next_token_look. cbn [t_typ t_txt]. change (TIdent =? TIdent) with true. cbn [negb].
+      assert (Eb : bytes_eqb (109 :: ds) [77] = false) by reflexivity. rewrite Eb.
+      assert (E1 : ((109 =? 109) && (1 <? blen (109 :: ds))) = true).
+      { subst ds. rewrite !blen_cons. pose proof (blen_nonneg t). apply andb_true_iff. split; [reflexivity|apply Z.ltb_lt; lia]. }
+      rewrite E1. rewrite (atoi_digits ds Hds Hlt).
+      assert (E2 : (uint_value ds <? 0) = false) by (apply Z.ltb_ge; apply uint_value_nonneg; assumption).
+      rewrite E2. unfold ret at 1. cbv beta iota.
+      rewrite stepS_plain by discriminate.
+      unfold bind at 1. rewrite p_token_ws; try lia; [|exact punct_colon|unfold ascii; lia].
+      rewrite stepS_plain by discriminate.
+      match goal with |- context [signal_cont ?KP ?NM false true ?V (PS (mkS _ _ ?PP _ ?KK _ _ _) _)] =>
+        destruct (signal_cont_run s fol KP NM false true V PP line KK ll Hw Hok HFc ltac:(lia)) as (st' & E & HR) end.
+      exists st'. split.
+      + rewrite E. unfold elab_signal. rewrite Em. reflexivity.
+      + rewrite !blen_cons in *.
+        match goal with |- Ready _ ?X _ _ => match type of HR with Ready _ ?Y _ _ => replace X with Y by lia end end. exact HR.
+  Qed.
+
+  (** ------------------------------------------------------------ BO_ *)
+
+  (** what may follow a definition at top level: nothing, or a line whose keyword is not SG_ *)
+  Definition rest_top (rest : bytes) : Prop :=
+    rest = [] \/ exists kw c r, rest = kw ++ c :: r /\ is_ident kw /\ ascii c /\ idc c = false /\ (length kw + 2 < F)%nat
+                               /\ bytes_eqb kw kw_signal = false.
+
+  Lemma rest_top_ok : forall rest, rest_top rest -> rest_ok rest.
+  Proof.
+    intros rest [->|(kw & c & r & E & Hk & Hc & Hnc & Hf & _)]; [left; reflexivity|right].
+    exists kw, c, r. auto.
+  Qed.
+
+  Definition signals_text (sigs : list ssignal) : bytes := concat (map print_signal sigs).
+
+  Lemma is_ident_signal : is_ident kw_signal.
+  Proof. exists 83, [71; 95]. split; [reflexivity|]. split; [reflexivity|]. repeat constructor. Qed.
+
+  Lemma signals_run : forall sigs f racc fol line off st,
+    Forall wf_signal sigs -> rest_top fol -> (length (signals_text sigs) + 4 <= F)%nat ->
+    Ready line off (signals_text sigs ++ fol) st -> (length sigs < f)%nat ->
+    exists st', signals_loop il id F f racc st = POk (rev racc ++ elab_signals line off sigs) st'
+                /\ Ready (line + Z.of_nat (length sigs)) (off + blen (signals_text sigs)) fol st'.
+  Proof.
+    induction sigs as [|s sigs IH]; intros f racc fol line off st Hw Htop HF HR Hf; (destruct f as [|f]; [cbn in Hf; lia|]).
+    - cbn [signals_text map concat app elab_signals length] in *. rewrite app_nil_r, blen_nil, !Z.add_0_r.
+      cbn [signals_loop]. unfold bind at 1. pose proof HR as (H1 & H2).
+      destruct Htop as [->|(kw & c & r & -> & Hk & Hc & Hnc & Hfk & Hns)].
+      + destruct (H1 eq_refl) as (tok & st' & Ep & Ht). rewrite Ep, Ht. change (EOF =? TIdent) with false. cbn [negb].
+        unfold ret. exists st'. split; [reflexivity|]. eapply ready_after_peek; eassumption.
+      + destruct (H2 kw c r eq_refl Hk Hc Hnc Hfk) as (ll & Ep). rewrite Ep. cbn [t_typ kwtok].
+        change (TIdent =? TIdent) with true. cbn [negb]. unfold bind at 1. rewrite peek_keyword_canon. rewrite Hns.
+        unfold ret. eexists. split; [reflexivity|]. eapply ready_after_peek; eassumption.
+    - inversion Hw as [|? ? Hs Hw']; subst. cbn [signals_text map concat] in *. fold (signals_text sigs) in *.
+      rewrite <- app_assoc in HR. rewrite print_signal_eq in HR. rewrite app_length in HF.
+      pose proof (print_signal_ge s) as Hge.
+      assert (Hok : rest_ok (signals_text sigs ++ fol)).
+      { destruct sigs as [|s' sigs']; [cbn; apply rest_top_ok; exact Htop|]. right. cbn [signals_text map concat].
+        rewrite <- app_assoc. rewrite print_signal_eq. eexists kw_signal, 32, _. split; [reflexivity|].
+        split; [exact is_ident_signal|]. split; [unfold ascii; lia|]. split; [reflexivity|]. unfold kw_signal. cbn [length]. lia. }
+      destruct HR as (_ & H2).
+      destruct (H2 kw_signal 32 (signal_body s (signals_text sigs ++ fol)) eq_refl is_ident_signal) as (ll & Ep);
+        [unfold ascii; lia|reflexivity|unfold kw_signal; cbn [length]; lia|].
+      cbn [signals_loop]. unfold bind at 1. rewrite Ep. cbn [t_typ kwtok]. change (TIdent =? TIdent) with true. cbn [negb].
+      unfold bind at 1. rewrite peek_keyword_canon. rewrite bytes_eqb_refl. unfold bind at 1.
+      destruct (step_signal s (signals_text sigs ++ fol) line off ll Hs Hok ltac:(lia)) as (st2 & E & HR2). rewrite E.
+      destruct (IH f (elab_signal line off s :: racc) fol (line + 1) (off + blen (print_signal s)) st2 Hw' Htop ltac:(lia) HR2
+                  ltac:(cbn in Hf; lia)) as (st' & E' & HR').
+      exists st'. split.
+      + rewrite E'. cbn [rev elab_signals]. rewrite <- app_assoc. reflexivity.
+      + cbn [length]. rewrite blen_app.
+        replace (line + Z.of_nat (S (length sigs))) with (line + 1 + Z.of_nat (length sigs)) by lia.
+        replace (off + (blen (print_signal s) + blen (signals_text sigs))) with (off + blen (print_signal s) + blen (signals_text sigs)) by lia.
+        exact HR'.
+  Qed.
+
+  Lemma signals_text_length_ge : forall sigs, (length sigs <= length (signals_text sigs))%nat.
+  Proof.
+    induction sigs as [|s sigs IH]; cbn [signals_text map concat length]; [lia|]. fold (signals_text sigs).
+    rewrite app_length. unfold print_signal at 1. rewrite app_length. unfold kw_signal. cbn [length]. lia.
+  Qed.
+
+  Lemma p_message_id_ws : forall b c r last pos l k ll,
+    wf_uint b -> msgid_valid (uint_value b mod 2 ^ 32) = true -> numterm c -> (length b + 2 < F)%nat -> 0 <= k ->
+    p_message_id il id F (PS (mkS (b ++ c :: r) last pos l k ll 32 ws_default) None)
+    = POk (uint_value b mod 2 ^ 32) (PS (stepS c r (pos + blen b) l (k + blen b) ll c ws_default) None).
+  Proof.
+    intros b c r last pos l k ll Hb Hv Hc HF Hk. pose proof (parse_uint_value b Hb) as Hpv.
+    destruct Hb as ((d0 & t & -> & Hd & Ht & Hz) & _).
+    unfold p_message_id, bind. rewrite peek_token_scan.
+    rewrite (scan_ws_uint 32); try assumption; [|exact ws32|exact ws_def|cbn [length] in HF; lia].
+    unfold p_uint, bind. rewrite next_token_look. cbn [t_typ t_txt]. change (TInt =? TInt) with true. cbn [negb].
+    rewrite Hpv. unfold ret at 1. rewrite Hv. unfold ret. f_equal. f_equal. apply stepS_eq; rewrite blen_cons; lia.
+  Qed.
+
+  Lemma is_ident_message : is_ident kw_message.
+  Proof. exists 66, [79; 95]. split; [reflexivity|]. split; [reflexivity|]. repeat constructor. Qed.
+
+  Lemma step_message : forall i n sz tx sigs rest line off ll,
+    wf_sdef (SMessage i n sz tx sigs) -> rest_top rest ->
+    (length (print_def (SMessage i n sz tx sigs)) + 4 <= F)%nat ->
+    exists st', parse_message il id F
+                  (canon line off kw_message 32 (i ++ 32 :: n ++ 32 :: 58 :: 32 :: sz ++ 32 :: tx ++ 10 :: signals_text sigs ++ rest) ll)
+                = POk (elab_def line off (SMessage i n sz tx sigs)) st'
+                /\ Ready (line + def_lines (SMessage i n sz tx sigs)) (off + blen (print_def (SMessage i n sz tx sigs))) rest st'.
+  Proof.
+    intros i n sz tx sigs rest line off ll (Hi & Hv & Hn & Hsz & Htx & Hsigs) Htop HF.
+    cbn [print_def] in HF. fold (signals_text sigs) in HF.
+    repeat (rewrite app_length in HF || cbn [length] in HF). unfold kw_message in HF. cbn [length] in HF.
+    pose proof (blen_nonneg i). pose proof (blen_nonneg n). pose proof (blen_nonneg sz). pose proof (blen_nonneg tx).
+    assert (Hk0 : blen kw_message = 3) by reflexivity.
+    unfold parse_message, parse_message_with, canon.
+    unfold bind at 1. rewrite p_keyword_canon. rewrite stepS_plain by discriminate.
+    unfold bind at 1. rewrite p_message_id_ws; try assumption; try lia; [|exact numterm_sp]. rewrite stepS_plain by discriminate.
+    unfold bind at 1. rewrite p_identifier_ws; try assumption; try reflexivity; try lia; [|unfold ascii; lia].
+    rewrite stepS_plain by discriminate.
+    unfold bind at 1. rewrite p_token_ws; try lia; [|exact punct_colon|unfold ascii; lia]. rewrite stepS_plain by discriminate.
+    unfold bind at 1. rewrite p_uint_ws; try assumption; try lia; [|exact numterm_sp]. rewrite stepS_plain by discriminate.
+    unfold bind at 1. rewrite p_identifier_ws; try assumption; try reflexivity; try lia; [|unfold ascii; lia].
+    unfold stepS. change (10 =? 10) with true. cbv iota.
+    match goal with |- context [PS (mkS _ [10] ?PP ?LL 0 ?KK 10 ws_default) None] =>
+      pose proof (ready_A (signals_text sigs ++ rest) [10] PP LL KK ltac:(lia)) as HR end.
+    destruct (signals_run sigs F [] rest _ _ _ Hsigs Htop ltac:(lia) HR) as (st' & E & HR').
+    { pose proof (signals_text_length_ge sigs). lia. }
+    unfold bind at 1. rewrite E. unfold ret. cbn [rev app kwtok t_pos].
+    exists st'. split.
+    - cbn [elab_def]. f_equal. f_equal. f_equal.
+      unfold message_header. repeat (rewrite blen_app || rewrite blen_cons). rewrite blen_nil. f_equal; lia.
+    - cbn [def_lines print_def]. fold (signals_text sigs).
+      match goal with |- Ready ?L1 ?X _ _ => match type of HR' with Ready ?L2 ?Y _ _ => replace X with Y; [replace L1 with L2 by lia; exact HR'|] end end.
       repeat (rewrite blen_app || rewrite blen_cons). lia.
   Qed.
 
@@ -1129,44 +1346,49 @@ Section RT.
   Lemma is_ident_nodes : is_ident kw_nodes.
   Proof. exists 66, [85; 95]. split; [reflexivity|]. split; [reflexivity|]. repeat constructor. Qed.
 
-  (** every printed definition starts with an identifier followed by a non-identifier character *)
+  (** every printed definition starts with an identifier, which is not SG_, followed by a
+      non-identifier character *)
   Lemma print_def_head : forall d rest, wf_sdef d ->
     exists kw c r, print_def d ++ rest = kw ++ c :: r /\ is_ident kw /\ ascii c /\ idc c = false
-                   /\ (length kw < length (print_def d))%nat.
+                   /\ (length kw < length (print_def d))%nat /\ bytes_eqb kw kw_signal = false.
   Proof.
     intros d rest Hw. destruct d as [s|[[b [[b1 b2]|]]|]|ns|mi mn msz mtx sigs|kw ts]; cbn [print_def wf_sdef] in *.
     - exists kw_version, 32, (34 :: s ++ [34; 10] ++ rest). rewrite <- app_assoc. cbn [app]. rewrite <- app_assoc.
       split; [reflexivity|]. split; [exact is_ident_version|]. split; [unfold ascii; lia|]. split; [reflexivity|].
-      rewrite app_length. cbn [length]. lia.
+      split; [|reflexivity]. rewrite app_length. cbn [length]. lia.
     - eexists kw_bit_timing, 58, _. rewrite <- app_assoc. cbn [app].
       split; [reflexivity|]. split; [exact is_ident_bit_timing|]. split; [unfold ascii; lia|]. split; [reflexivity|].
-      rewrite app_length. cbn [length]. lia.
+      split; [|reflexivity]. rewrite app_length. cbn [length]. lia.
     - eexists kw_bit_timing, 58, _. rewrite <- app_assoc. cbn [app].
       split; [reflexivity|]. split; [exact is_ident_bit_timing|]. split; [unfold ascii; lia|]. split; [reflexivity|].
-      rewrite app_length. cbn [length]. lia.
+      split; [|reflexivity]. rewrite app_length. cbn [length]. lia.
     - eexists kw_bit_timing, 58, _. rewrite <- app_assoc. cbn [app].
       split; [reflexivity|]. split; [exact is_ident_bit_timing|]. split; [unfold ascii; lia|]. split; [reflexivity|].
-      rewrite app_length. cbn [length]. lia.
+      split; [|reflexivity]. rewrite app_length. cbn [length]. lia.
     - eexists kw_nodes, 58, _. rewrite <- app_assoc. cbn [app].
       split; [reflexivity|]. split; [exact is_ident_nodes|]. split; [unfold ascii; lia|]. split; [reflexivity|].
-      rewrite app_length. cbn [length]. lia.
-    - destruct Hw as (Hk & _ & _). destruct (sp_list_head' _ print_utok ts rest) as (c & r & E & Hc & Hnc & _).
+      split; [|reflexivity]. rewrite app_length. cbn [length]. lia.
+    - eexists kw_message, 32, _. rewrite <- app_assoc. cbn [app].
+      split; [reflexivity|]. split; [exact is_ident_message|]. split; [unfold ascii; lia|]. split; [reflexivity|].
+      split; [|reflexivity]. rewrite app_length. cbn [length]. lia.
+    - destruct Hw as (Hk & Hd & _). destruct (sp_list_head' _ print_utok ts rest) as (c & r & E & Hc & Hnc & _).
       exists kw, c, r. rewrite <- !app_assoc. cbn [app]. rewrite E.
       split; [reflexivity|]. split; [exact (ident_valid_shape kw Hk)|]. split; [assumption|]. split; [assumption|].
-      rewrite !app_length. cbn [length]. lia.
+      split; [rewrite !app_length; cbn [length]; lia|].
+      unfold dispatching in Hd. repeat (apply orb_false_iff in Hd; destruct Hd as [Hd ?]). assumption.
   Qed.
 
-  Lemma rest_ok_print : forall ds, Forall wf_sdef ds -> (length (print ds) + 4 <= F)%nat -> rest_ok (print ds).
+  Lemma rest_top_print : forall ds, Forall wf_sdef ds -> (length (print ds) + 4 <= F)%nat -> rest_top (print ds).
   Proof.
     intros ds Hw HF. destruct ds as [|d ds]; [left; reflexivity|right].
     inversion Hw as [|? ? Hd Hw']; subst. cbn [print] in *.
-    destruct (print_def_head d (print ds) Hd) as (kw & c & r & E & Hk & Hc & Hnc & Hl).
-    exists kw, c, r. rewrite app_length in HF. split; [exact E|]. split; [exact Hk|]. split; [exact Hc|]. split; [exact Hnc|]. lia.
+    destruct (print_def_head d (print ds) Hd) as (kw & c & r & E & Hk & Hc & Hnc & Hl & Hns).
+    exists kw, c, r. rewrite app_length in HF. split; [exact E|]. split; [exact Hk|]. split; [exact Hc|]. split; [exact Hnc|].
+    split; [lia|exact Hns].
   Qed.
 
-  Lemma peek_keyword_canon : forall line off kw c r ll,
-    peek_keyword il id F (canon line off kw c r ll) = POk kw (canon line off kw c r ll).
-  Proof. intros. unfold peek_keyword, bind, canon. rewrite peek_token_look. reflexivity. Qed.
+  Lemma rest_ok_print : forall ds, Forall wf_sdef ds -> (length (print ds) + 4 <= F)%nat -> rest_ok (print ds).
+  Proof. intros. apply rest_top_ok, rest_top_print; assumption. Qed.
 
   Lemma dispatch_unknown : forall bt unk msg defs kw, dispatching kw = false ->
     parse_def_with il id F bt unk msg defs kw = unk.
@@ -1181,25 +1403,24 @@ Section RT.
 
   Ltac fuel HF :=
     cbn [print_def] in HF; repeat (rewrite app_length in HF || cbn [length] in HF);
-    unfold kw_version, kw_bit_timing, kw_nodes in *; cbn [length] in *; lia.
+    unfold kw_version, kw_bit_timing, kw_nodes, kw_message in *; cbn [length] in *; lia.
 
   (** one definition: from the canonical state at its keyword, the dispatched parser returns its
       denotation and leaves the parser ready at the next line *)
-  Lemma step_def : forall d rest defs line off, wf_sdef d -> rest_ok rest ->
+  Lemma step_def : forall d rest defs line off, wf_sdef d -> rest_top rest ->
     (length (print_def d) + length rest + 4 <= F)%nat ->
     forall st, Ready line off (print_def d ++ rest) st ->
     exists kw st1 st2, peek_token st = POk (kwtok line off kw) st1 /\ peek_keyword il id F st1 = POk kw st1
                        /\ the_def defs kw st1 = POk (elab_def line off d) st2
-                       /\ Ready (line + 1) (off + blen (print_def d)) rest st2.
+                       /\ Ready (line + def_lines d) (off + blen (print_def d)) rest st2.
   Proof.
-    intros d rest defs line off Hw Hok HF st (_ & HR).
+    intros d rest defs line off Hw Htop HF st (_ & HR). pose proof (rest_top_ok rest Htop) as Hok.
     destruct d as [s|[[b [[b1 b2]|]]|]|ns|mi mn msz mtx sigs|kw ts]; cbn [wf_sdef elab_def] in *.
     - (* VERSION *)
       destruct (HR kw_version 32 (34 :: s ++ 34 :: 10 :: rest)) as (ll & Ep);
         [cbn [print_def]; rewrite <- app_assoc; cbn [app]; rewrite <- app_assoc; reflexivity
         |exact is_ident_version|unfold ascii; lia|reflexivity|fuel HF|].
-      destruct (step_version s rest line off ll Hw) as (st2 & E & HR2);
-        [fuel HF|].
+      destruct (step_version s rest line off ll Hw) as (st2 & E & HR2); [fuel HF|].
       eexists kw_version, _, st2. split; [exact Ep|]. split; [apply peek_keyword_canon|]. split; [exact E|exact HR2].
     - (* BS_ full form *)
       destruct Hw as (Hb & Hb1 & Hb2).
@@ -1207,15 +1428,13 @@ Section RT.
         [cbn [print_def]; rewrite <- app_assoc; cbn [app]; rewrite <- app_assoc; cbn [app]; rewrite <- app_assoc; cbn [app];
          rewrite <- app_assoc; reflexivity
         |exact is_ident_bit_timing|unfold ascii; lia|reflexivity|fuel HF|].
-      destruct (step_bit_timing_2 b b1 b2 rest line off ll Hb Hb1 Hb2 Hok) as (st2 & E & HR2);
-        [fuel HF|].
+      destruct (step_bit_timing_2 b b1 b2 rest line off ll Hb Hb1 Hb2 Hok) as (st2 & E & HR2); [fuel HF|].
       eexists kw_bit_timing, _, st2. split; [exact Ep|]. split; [apply peek_keyword_canon|]. split; [exact E|exact HR2].
     - (* BS_ baud only *)
       destruct (HR kw_bit_timing 58 (32 :: b ++ 10 :: rest)) as (ll & Ep);
         [cbn [print_def]; rewrite <- app_assoc; cbn [app]; rewrite <- app_assoc; reflexivity
         |exact is_ident_bit_timing|unfold ascii; lia|reflexivity|fuel HF|].
-      destruct (step_bit_timing_1 b rest line off ll Hw Hok) as (st2 & E & HR2);
-        [fuel HF|].
+      destruct (step_bit_timing_1 b rest line off ll Hw Hok) as (st2 & E & HR2); [fuel HF|].
       eexists kw_bit_timing, _, st2. split; [exact Ep|]. split; [apply peek_keyword_canon|]. split; [exact E|exact HR2].
     - (* BS_ alone *)
       destruct (HR kw_bit_timing 58 (10 :: rest)) as (ll & Ep);
@@ -1227,16 +1446,20 @@ Section RT.
       destruct (HR kw_nodes 58 (sp_list (fun n => n) ns ++ 10 :: rest)) as (ll & Ep);
         [cbn [print_def]; rewrite <- app_assoc; cbn [app]; rewrite <- app_assoc; reflexivity
         |exact is_ident_nodes|unfold ascii; lia|reflexivity|fuel HF|].
-      destruct (step_nodes ns rest line off ll Hw Hok) as (st2 & E & HR2);
-        [fuel HF|].
+      destruct (step_nodes ns rest line off ll Hw Hok) as (st2 & E & HR2); [fuel HF|].
       eexists kw_nodes, _, st2. split; [exact Ep|]. split; [apply peek_keyword_canon|]. split; [exact E|exact HR2].
+    - (* BO_ with its SG_ lines *)
+      destruct (HR kw_message 32 (mi ++ 32 :: mn ++ 32 :: 58 :: 32 :: msz ++ 32 :: mtx ++ 10 :: signals_text sigs ++ rest)) as (ll & Ep);
+        [cbn [print_def]; unfold signals_text; repeat (rewrite <- app_assoc; cbn [app]); reflexivity
+        |exact is_ident_message|unfold ascii; lia|reflexivity|fuel HF|].
+      destruct (step_message mi mn msz mtx sigs rest line off ll Hw Htop) as (st2 & E & HR2); [lia|].
+      eexists kw_message, _, st2. split; [exact Ep|]. split; [apply peek_keyword_canon|]. split; [exact E|exact HR2].
     - (* unknown line *)
       destruct Hw as (Hk & Hd & Hts).
       destruct (sp_list_head' _ print_utok ts rest) as (c & r & Ec & Hc & Hnc & _).
       destruct (HR kw c r) as (ll & Ep);
         [cbn [print_def]; rewrite <- !app_assoc; cbn [app]; rewrite Ec; reflexivity
-        |exact (ident_valid_shape kw Hk)|assumption|assumption
-        |fuel HF|].
+        |exact (ident_valid_shape kw Hk)|assumption|assumption|fuel HF|].
       destruct (step_unknown kw ts c r rest line off ll (eq_sym Ec) Hts Hok) as (st2 & E & HR2);
         [destruct (ident_valid_shape kw Hk) as (? & ? & -> & _); fuel HF|].
       eexists kw, _, st2. split; [exact Ep|]. split; [apply peek_keyword_canon|]. split; [|exact HR2].
@@ -1252,11 +1475,11 @@ Section RT.
     - cbn [parse_loop_with print elab_from]. destruct HR as (H1 & _). destruct (H1 eq_refl) as (tok & st' & E & Ht).
       rewrite E, Ht. change (EOF =? EOF) with true. cbv iota. rewrite app_nil_r. reflexivity.
     - inversion Hw as [|? ? Hd Hw']; subst. cbn [print] in *. rewrite app_length in HF.
-      assert (Hok : rest_ok (print ds)) by (apply rest_ok_print; [assumption|lia]).
-      destruct (step_def d (print ds) defs line off Hd Hok ltac:(lia) st HR) as (kw & st1 & st2 & Ep & Ek & Ed & HR2).
+      assert (Htop : rest_top (print ds)) by (apply rest_top_print; [assumption|lia]).
+      destruct (step_def d (print ds) defs line off Hd Htop ltac:(lia) st HR) as (kw & st1 & st2 & Ep & Ek & Ed & HR2).
       cbn [parse_loop_with]. rewrite Ep. cbn [t_typ kwtok]. change (TIdent =? EOF) with false. cbv iota.
       unfold bind. rewrite Ek, Ed. cbn [elab_from].
-      rewrite (IH f (defs ++ [elab_def line off d]) (line + 1) (off + blen (print_def d)) st2 Hw'); try assumption;
+      rewrite (IH f (defs ++ [elab_def line off d]) (line + def_lines d) (off + blen (print_def d)) st2 Hw'); try assumption;
         [|cbn in Hf; lia|lia].
       rewrite <- app_assoc. reflexivity.
   Qed.
@@ -1322,10 +1545,24 @@ Proof.
 Qed.
 
 (** a concrete well-formed source file with all covered kinds (non-vacuity of the hypotheses) *)
+Definition sample_signal : ssignal :=
+  {| ss_name := [83; 112; 101; 101; 100];                     (* Speed *)
+     ss_mux := Muxed [51];                                    (* m3 *)
+     ss_start := [55]; ss_size := [49; 54];                   (* 7 | 16 *)
+     ss_big_endian := true; ss_signed := true;                (* @ 0 - *)
+     ss_factor := {| n_neg := false; n_digits := [49] |};     (* 1 *)
+     ss_offset := {| n_neg := true; n_digits := [52; 48] |};  (* -40 *)
+     ss_min := {| n_neg := true; n_digits := [52; 48] |};     (* -40 *)
+     ss_max := {| n_neg := false; n_digits := [54; 53; 49; 51] |};  (* 6513 *)
+     ss_unit := [107; 109; 47; 104];                          (* km/h *)
+     ss_receiver := [69; 67; 85; 50]; ss_receivers := [[69; 67; 85; 49]] |}.
+
 Definition sample_ds : list sdef :=
   [ SVersion [49; 46; 48];                                               (* VERSION "1.0" *)
     SBitTiming (Some ([53; 48; 48], Some ([49], [50])));                   (* BS_: 500 : 1 , 2 *)
     SNodes [[69; 67; 85; 49]; [69; 67; 85; 50]];                           (* BU_: ECU1 ECU2 *)
+    SMessage [50; 53; 54; 54; 56; 52; 52; 57; 50; 54] [77; 115; 103] [56] [69; 67; 85; 49]
+             [sample_signal; sample_signal];                               (* BO_ 2566844926 Msg : 8 ECU1 + 2 SG_ lines *)
     SUnknown [70; 79; 79; 95] [UIdent [120]; UNum [49; 50]; UPunct 59];    (* FOO_ x 12 ; *)
     SBitTiming None;                                                       (* BS_: *)
     SVersion [] ].                                                         (* VERSION "" *)
@@ -1333,11 +1570,27 @@ Definition sample_ds : list sdef :=
 Lemma sample_ds_wf : Forall wf_sdef sample_ds.
 Proof.
   assert (Hp : forall c, 32 <= c < 127 -> c <> 34 -> c <> 92 -> plain_char c) by (intros; repeat split; lia).
+  assert (Hd : forall d0 t, is_decimal d0 = true -> Forall (fun a => is_decimal a = true) t -> (d0 <> 48 \/ t = []) ->
+               wf_digits (d0 :: t)) by (intros d0 t ? ? ?; exists d0, t; auto).
   assert (Hu : forall d0 t, is_decimal d0 = true -> Forall (fun a => is_decimal a = true) t -> (d0 <> 48 \/ t = []) ->
-               uint_value (d0 :: t) < 2 ^ 64 -> wf_uint (d0 :: t)).
-  { intros d0 t ? ? ? ?. split; [exists d0, t; auto|assumption]. }
+               uint_value (d0 :: t) < 2 ^ 64 -> wf_uint (d0 :: t)) by (intros; split; auto).
+  assert (Hn : forall neg d0 t, is_decimal d0 = true -> Forall (fun a => is_decimal a = true) t -> (d0 <> 48 \/ t = []) ->
+               parse_float (d0 :: t) <> None -> wf_num {| n_neg := neg; n_digits := d0 :: t |}) by (intros; split; cbn; auto).
+  assert (Hsig : wf_signal sample_signal).
+  { unfold wf_signal, sample_signal. cbn [ss_name ss_mux ss_start ss_size ss_factor ss_offset ss_min ss_max ss_unit ss_receiver ss_receivers wf_mux].
+    repeat split; try reflexivity;
+      try (apply Hd; [reflexivity | repeat constructor | (left; lia) || (right; reflexivity)]);
+      try (apply Hu; [reflexivity | repeat constructor | (left; lia) || (right; reflexivity) | vm_compute; reflexivity]);
+      try (apply Hn; [reflexivity | repeat constructor | (left; lia) || (right; reflexivity) | vm_compute; discriminate]);
+      try (vm_compute; reflexivity).
+    - repeat constructor; apply Hp; lia.
+    - repeat constructor. }
   unfold sample_ds. repeat constructor; cbn [wf_sdef wf_utok];
-    try (apply Hp; lia); try reflexivity;
+    try (apply Hp; lia); try reflexivity; try exact Hsig;
     try (apply Hu; [reflexivity | repeat constructor | (left; lia) || (right; reflexivity) | vm_compute; reflexivity]).
-  all: lia.
+  all: try (vm_compute; reflexivity).
+  all: try (apply Hd; [reflexivity | repeat constructor | (left; lia) || (right; reflexivity)]).
+  all: try lia.
+  all: try discriminate.
+  all: try (repeat constructor).
 Qed.
